@@ -188,6 +188,7 @@ func init() {
 		c.floor("who-broadcasts", 6)
 
 		c13LogFirst(c)
+		c13WALEntryByValue(c)
 		c13CommitOrder(c)
 		c13ReplayExhaustive(c)
 		c13ReplayDeterminism(c)
@@ -607,5 +608,67 @@ func c13FlushRule(c *Ctx, ex *ssa.Function, flush *Site, hsite *Site, visible []
 		// flush error returns
 		fs := resultTestedForNil(flush.Instr)
 		c.check(fs, "flush-before-visible", qname(ex)+":flush-error", p.Pos(flush.Pos()), "flush error is tested", "the error of d.db.Flush() is ignored: a failed flush would still let the action out")
+	}
+}
+
+// c13WALEntryByValue: the entry handed to a WriteWAL action is a message the caller owns or a fresh copy — never a pointer
+// into the state machine's own mutable state. The driver reads the entry only after the state machine returned; by then a
+// field such as the height may have moved on (the same call can commit the height), and what is logged is not what
+// happened (defect F25: Start(h+1) logged instead of Start(h)).
+func c13WALEntryByValue(c *Ctx) {
+	p := c.P
+	n := 0
+	for _, fn := range p.sortedFuncs() {
+		if pkgRelOf(fn) != "consensus/tendermint" || fn.Origin() != nil || len(fn.Blocks) == 0 || strings.HasSuffix(p.Pos(fnPos(fn)), "_test.go") {
+			continue
+		}
+		allInstrsOne(fn, func(in ssa.Instruction) {
+			st, ok := in.(*ssa.Store)
+			if !ok {
+				return
+			}
+			fa, ok := st.Addr.(*ssa.FieldAddr)
+			if !ok || fieldName(fa.X.Type(), fa.Field) != "Entry" || !strings.Contains(fa.X.Type().String(), "actions.WriteWAL") {
+				return
+			}
+			n++
+			v := st.Val
+			for d := 0; d < 8; d++ {
+				switch x := v.(type) {
+				case *ssa.MakeInterface:
+					v = x.X
+					continue
+				case *ssa.ChangeType:
+					v = x.X
+					continue
+				case *ssa.Convert:
+					v = x.X
+					continue
+				case *ssa.ChangeInterface:
+					v = x.X
+					continue
+				}
+				break
+			}
+			bad := ""
+			if f2, isFA := v.(*ssa.FieldAddr); isFA {
+				// &x.f: a pointer into an existing object — accepted only for a local (fresh) object
+				base := ssa.Value(f2)
+				for {
+					if g, ok := base.(*ssa.FieldAddr); ok {
+						base = g.X
+						continue
+					}
+					break
+				}
+				if _, fresh := base.(*ssa.Alloc); !fresh {
+					bad = term(v)
+				}
+			}
+			c.check(bad == "", "wal-entry-by-value", qname(fn)+": WriteWAL.Entry", p.Pos(posOf(in, fn)), "the logged entry is a message or a fresh copy", "the WAL entry is "+bad+", a pointer into the state machine's live state: the driver reads it after the call returned, when the field may already have changed")
+		})
+	}
+	if n < 3 {
+		c.und("wal-entry-by-value", "consensus/tendermint", "", fmt.Sprintf("only %d WriteWAL entries found", n))
 	}
 }
